@@ -13,13 +13,21 @@ Import ListNotations.
    is not empty.  [wfc]: one limits entry per knob. *)
 Theorem C10_limits_meaning : forall (E : env) (cf : cfg (eF E)) s, good E cf s ->
   forall i lo hi v, nth_error (c_lim cf) i = Some (Some (lo, hi)) ->
-    (nth_error (knobs s) i = Some v -> e_ltb E v lo = false /\ e_ltb E hi v = false) /\
-    (forall r, In r (log s) -> nth_error (r_knobs r) i = Some v -> e_ltb E v lo = false /\ e_ltb E hi v = false).
-Proof. exact good_meaning. Qed.
+    (nth_error (knobs s) i = Some v -> inside E lo hi v) /\
+    (forall r, In r (log s) -> nth_error (r_knobs r) i = Some v -> inside E lo hi v).
+Proof. intros E cf s. exact (good_meaning E cf s). Qed.
 Print Assumptions C10_limits_meaning.
 
+(* [inside E lo hi v]: each side of a limit pair is optional (limits=(0, None),
+   (None, 5); an infinite side behaves like an absent one): v is not below lo when
+   lo is given and not above hi when hi is given *)
+Theorem C10_inside_meaning : forall (E : env) lo hi v, inside E lo hi v <->
+  (forall a, lo = Some a -> e_ltb E v a = false) /\ (forall b, hi = Some b -> e_ltb E b v = false).
+Proof. intros; reflexivity. Qed.
+Print Assumptions C10_inside_meaning.
+
 (* a constructed optimizer whose start point is inside the limits is good *)
-Theorem C10_limits_init : forall (E : env) (cf : cfg (eF E)), wfc E cf -> forall k0 va0 s0,
+Theorem C10_limits_init : forall (E : env) (cf : cfg (eF E)), wfc E cf -> c_check cf = true -> forall k0 va0 s0,
   init E cf k0 va0 = Ok s0 -> length k0 = length (c_w cf) -> length va0 = length (c_w cf) ->
   lims_ok E (c_lim cf) k0 -> good E cf s0.
 Proof. exact init_good. Qed.
@@ -29,10 +37,10 @@ Print Assumptions C10_limits_init.
    inside the limits: the Jacobian solver's limit test and its update compute the
    same x_i - step_i, and every value the merit function writes with
    check_limits has passed the test *)
-Theorem C10_limits : forall (E : env) (cf : cfg (eF E)), wfc E cf -> forall fuel o s s',
+Theorem C10_limits : forall (E : env) (cf : cfg (eF E)), wfc E cf -> c_check cf = true -> forall fuel o s s',
   good E cf s -> run_op E cf fuel o s = Ok s' -> good E cf s'.
 Proof.
-  intros E cf Hc fuel o s s' Hg Ho. pose proof (run_op_good E cf Hc fuel o s Hg) as P. rewrite Ho in P. exact P.
+  intros E cf Hc Hk fuel o s s' Hg Ho. pose proof (run_op_good E cf Hc Hk fuel o s Hg) as P. rewrite Ho in P. exact P.
 Qed.
 Print Assumptions C10_limits.
 
@@ -40,16 +48,16 @@ Print Assumptions C10_limits.
    containers too when the operation is solve() with restore_if_fail, reload or
    tag (a failing bare step() may leave a finite-difference perturbation x+h in
    a container, a failing clear_log() leaves no row 0) *)
-Theorem C10_limits_failure : forall (E : env) (cf : cfg (eF E)), wfc E cf -> forall fuel o s e s',
+Theorem C10_limits_failure : forall (E : env) (cf : cfg (eF E)), wfc E cf -> c_check cf = true -> forall fuel o s e s',
   good E cf s -> run_op E cf fuel o s = Err e s' ->
   Forall (row_ok E cf) (log s') /\ (restoring E cf o -> good E cf s').
 Proof.
-  intros E cf Hc fuel o s e s' Hg Ho. pose proof (run_op_good E cf Hc fuel o s Hg) as P. rewrite Ho in P. exact P.
+  intros E cf Hc Hk fuel o s e s' Hg Ho. pose proof (run_op_good E cf Hc Hk fuel o s Hg) as P. rewrite Ho in P. exact P.
 Qed.
 Print Assumptions C10_limits_failure.
 
 (* all sequences of operations whose failures are restoring ones *)
-Theorem C10_limits_sequences_partial : forall (E : env) (cf : cfg (eF E)), wfc E cf -> forall s0 s,
+Theorem C10_limits_sequences_partial : forall (E : env) (cf : cfg (eF E)), wfc E cf -> c_check cf = true -> forall s0 s,
   good E cf s0 -> reach_r E cf s0 s -> good E cf s.
 Proof. exact reach_good. Qed.
 Print Assumptions C10_limits_sequences_partial.
@@ -86,23 +94,27 @@ Print Assumptions C10_max_step_hypotheses_satisfiable.
 (* the case of the defect report: max_step = (1, 5), raw step (10, 10) *)
 Example C10_max_step_example :
   map this (clip_to_max_steps qenv (mkCfg [1%Qc; 1%Qc] [None; None] [1%Qc; 1%Qc] [Some 1%Qc; Some (Q2Qc 5)]
-                                          [] [] [] [] [] [] 1 true true) [Q2Qc 10; Q2Qc 10]) = [1%Q; 1%Q].
+                                          [] [] [] [] [] [] 1 true true true) [Q2Qc 10; Q2Qc 10]) = [1%Q; 1%Q].
 Proof. vm_compute. reflexivity. Qed.
 Print Assumptions C10_max_step_example.
 
 (* ---- disabled knobs ------------------------------------------------------------------- *)
 (* a knob that is disabled while step() runs (persistently or by the call's own
    disable_vary / disable_vary_name arguments) keeps its container value, whether
-   step() returns or raises *)
+   step() returns or raises.  [pre_clip E cf s] is s itself with check_limits=True;
+   with check_limits=False it is s after _clip_to_limits, which only moves active
+   knobs that start outside their limits *)
 Theorem C10_inactive_unchanged : forall (E : env) (cf : cfg (eF E)) fuel n take_best a b s s',
   opt_step E cf fuel n take_best a b s = Ok s' ->
-  forall i, nth_error (va (pre_flags E cf a s)) i = Some false -> nth_error (knobs s') i = nth_error (knobs s) i.
+  forall i, nth_error (va (pre_flags E cf a s)) i = Some false ->
+            nth_error (knobs s') i = nth_error (knobs (pre_clip E cf s)) i.
 Proof. exact step_inactive_ok. Qed.
 Print Assumptions C10_inactive_unchanged.
 
 Theorem C10_inactive_unchanged_on_error : forall (E : env) (cf : cfg (eF E)) fuel n take_best a b s e s',
   opt_step E cf fuel n take_best a b s = Err e s' ->
-  forall i, nth_error (va (pre_flags E cf a s)) i = Some false -> nth_error (knobs s') i = nth_error (knobs s) i.
+  forall i, nth_error (va (pre_flags E cf a s)) i = Some false ->
+            nth_error (knobs s') i = nth_error (knobs (pre_clip E cf s)) i.
 Proof. exact step_inactive_err. Qed.
 Print Assumptions C10_inactive_unchanged_on_error.
 
@@ -153,10 +165,10 @@ Definition xenv : env :=
         0%Qc (Q2Qc 10) (Q2Qc 100) 0%Qc (Q2Qc (-1000)) (Q2Qc 1000)
         (fun k => Some (k ++ k)) (fun y => fold_right (fun a acc => (a * a + acc)%Qc) 0%Qc y)
         (fun m y => Some (map (fun _ => 1%Qc) m)) (fun j _ _ _ _ => j).
-(* one knob in [-3, 3] with max_step 1/2, two targets *)
+(* one knob limited below only, limits = (-3, None), with max_step 1/2, two targets *)
 Definition xcfg : cfg Qc :=
-  mkCfg [1%Qc] [Some (Q2Qc (-3), Q2Qc 3)] [1%Qc] [Some (Q2Qc (1 # 2))] [0%N] [0%N]
-        [Q2Qc 2; Q2Qc 2] [Q2Qc (1 # 10); Q2Qc (1 # 10)] [1%Qc; 1%Qc] [0%N; 0%N] 3 true true.
+  mkCfg [1%Qc] [Some (Some (Q2Qc (-3)), None)] [1%Qc] [Some (Q2Qc (1 # 2))] [0%N] [0%N]
+        [Q2Qc 2; Q2Qc 2] [Q2Qc (1 # 10); Q2Qc (1 # 10)] [1%Qc; 1%Qc] [0%N; 0%N] 3 true true true.
 
 Example C10_good_satisfiable :
   wfc xenv xcfg /\
